@@ -263,7 +263,7 @@ int uv_ip4_addr(const char* ip, int port, struct sockaddr_in* addr) {
 
 
 int uv_ip6_addr(const char* ip, int port, struct sockaddr_in6* addr) {
-  char address_part[40];
+  char address_part[46];  /* longest textual IPv6 address (45) + NUL */
   size_t address_part_size;
   const char* zone_index;
 
@@ -278,7 +278,7 @@ int uv_ip6_addr(const char* ip, int port, struct sockaddr_in6* addr) {
   if (zone_index != NULL) {
     address_part_size = zone_index - ip;
     if (address_part_size >= sizeof(address_part))
-      address_part_size = sizeof(address_part) - 1;
+      return UV_EINVAL;  /* no valid address is that long; do not truncate */
 
     memcpy(address_part, ip, address_part_size);
     address_part[address_part_size] = '\0';
